@@ -22,6 +22,23 @@ import framework as fw, nums
 ID = "C08"
 FAMILY = "hier"
 OCAML_SRCS = ("conv.ml", "drv_hier.ml")
+ASSUMPTIONS = [
+    "theorems C08_levels_conformal .. C08_coarse_duplicate are about the model's setup loop with abstract stages: spgemm / spgemm_T satisfy "
+    "den(A*B) = drop(sum_k a_ik b_kj) resp. den(P^T*B) = drop(sum_k p_ki b_kj) (C06), prep / finish preserve den, dimensions and well-formedness "
+    "(C07: copy, sort, move_diag), coarsen returns a well-formed P with n_l rows whose per-rank column blocks sum to its column count "
+    "(dimension contract of C12/C13/C15/C16); sizes non-increasing assumes #columns(P) <= #rows(A); strict decrease assumes the C13/C15 contract "
+    "'a strength edge implies at least one F point / one aggregate with two nodes' (hypothesis coarsen_strict); termination without depth limit "
+    "assumes coarsen strictly reduces every level larger than max_coarse. The hypotheses are shown satisfiable (C08_model_nonvacuous: exact "
+    "products, pairwise aggregation).",
+    "max_coarse is a nat (negative values not modelled); max_levels is option nat (None = -1 = no limit; 0 and 1 behave alike, other negative "
+    "values of the C++ int behave like 0 and are not generated)",
+    "the distributed product drops partial sums <= 1e-16 separately on each rank; the model's two-drop form is the sequential one, the checker "
+    "compares against the exact triple product with the stated slack instead",
+    "hier_ok runs on position-space global operators assembled by props/C08.py from the per-rank dumps (name of an unknown -> position in the "
+    "rank-ordered concatenation of local_row_map); this renumbering, the per-level slack tol_l and the strength-edge flag are computed by trusted "
+    "Python (the flag must agree with the library's own strength(); levels with num_variables = 2 are not checked for strict decrease)",
+    "executed instance: Qc with Qcplus_fast / Qcminus_fast / Qc_leb_fast (proved equal to Qcplus / Qcminus / Qc_leb in Extract/Inst_hier.v)",
+]
 RAND_MAX = 2147483647
 PROBE_LEVELS = 40
 F0 = Fraction(0)
@@ -489,6 +506,10 @@ def judge(ctx, c, res, mres):
         else: ctx.signal("O", "hier:%s:%s" % (cl, c["solver"]), txt, case=c["line"])
     if c.get("nostop") and not any(cl.startswith("strict") for (cl, l, txt) in V):
         ctx.count("nostop_level_without_strength_edge")
+        if len(ctx.notes) < 3:
+            ctx.notes.append("max_levels=-1 (no depth limit) and a level larger than max_coarse without any strength edge: coarsening "
+                             "stagnates (%s: every point C / singleton aggregates) and the unlimited setup would never return; evaluated with the "
+                             "probe limit of %d levels; not a violation of C08 (no edge, no depth limit given). case %s" % (c["solver"], PROBE_LEVELS, c["cid"]))
     c["verdict"] = (not V); c["bits"] = bits; c["mline"] = mline
 
 def judge_model(ctx, c, mres):
